@@ -20,7 +20,12 @@ import (
 // structural atoms: everything except error checks.
 func structAtoms(b *ssa.BasicBlock) []Atom {
 	var out []Atom
-	for _, a := range atomsOfBlock(b) {
+	all := atomsOfBlockLocal(b)
+	if b != nil && b.Parent() != nil {
+		// exact guard sets: only the flag / legacy guards common to all call sites are inherited
+		all = append(all, inheritedAtoms(b.Parent(), 2, false)...)
+	}
+	for _, a := range all {
 		if a.Kind == "errnil" {
 			continue
 		}
@@ -120,9 +125,8 @@ func ruleWireFields(c *Check, p *Program, rule string) {
 	// --- block checksum
 	var wSite, wAnchor *ssa.BasicBlock
 	var wPos string
-	for _, ci := range callsInDeep(wr) {
-		if isBinaryLE(ci, "PutUint32") {
-			v := leValueArg(ci)
+	for _, ci := range callsIn(wr) {
+		if v := leEmits(ci, "PutUint32"); v != nil {
 			switch {
 			case derivesFromField(v, "FrameDataBlock.Checksum"):
 				wSite = ci.Block()
@@ -658,7 +662,7 @@ func ruleContentHashFeed(c *Check, p *Program, rule string) {
 		return
 	}
 	found := false
-	for _, fn := range withAnon(ir)[1:] {
+	for _, fn := range familyFns(ir)[1:] {
 		var send *ssa.Send
 		var feed ssa.Instruction
 		allInstrs(fn, func(in ssa.Instruction) {
@@ -692,7 +696,7 @@ func ruleContentHashFeed(c *Check, p *Program, rule string) {
 	if !found {
 		c.Fail(rule, "initR.collector#hash-before-deliver", p.Pos(ir.Pos()), "collector goroutine hashes then forwards", "no closure in initR both hashes and forwards decoded buffers")
 	}
-	for _, fn := range withAnon(ir)[1:] {
+	for _, fn := range familyFns(ir)[1:] {
 		for _, ci := range callsIn(fn) {
 			if calleeIs(ci, pkgStream, "FrameDataBlock.Uncompress") {
 				a := ci.Common().Args
@@ -756,11 +760,13 @@ func ruleEOSCallsCloseR(c *Check, p *Program, rule string) {
 		if fn == nil {
 			continue
 		}
-		// blocks guarded by eofcmp(err)==true
+		fns := deepFuncs(fn, 2)
 		var closeCalls []ssa.CallInstruction
-		for _, ci := range callsIn(fn) {
-			if calleeIs(ci, pkgStream, "Frame.CloseR") {
-				closeCalls = append(closeCalls, ci)
+		for _, g := range fns {
+			for _, ci := range callsIn(g) {
+				if calleeIs(ci, pkgStream, "Frame.CloseR") {
+					closeCalls = append(closeCalls, ci)
+				}
 			}
 		}
 		key := name + "#eos-closeR"
@@ -769,7 +775,8 @@ func ruleEOSCallsCloseR(c *Check, p *Program, rule string) {
 			continue
 		}
 		c.Sites += len(closeCalls)
-		// Every return reachable from an `err == io.EOF` true edge must be preceded by a CloseR call.
+		// Every return reachable from an `err == io.EOF` true edge must be preceded by a CloseR call
+		// (directly or in a helper that calls it on all its paths).
 		isClose := func(in ssa.Instruction) bool {
 			ci, ok := in.(ssa.CallInstruction)
 			return ok && calleeIs(ci, pkgStream, "Frame.CloseR")
@@ -777,22 +784,22 @@ func ruleEOSCallsCloseR(c *Check, p *Program, rule string) {
 		nEdges := 0
 		bad := false
 		var where string
-		for _, b := range fn.Blocks {
-			ifi, ok := b.Instrs[len(b.Instrs)-1].(*ssa.If)
-			if !ok {
-				continue
-			}
-			for k := 0; k < 2; k++ {
-				a := atomOf(ifi.Cond, k == 0)
-				if a.Kind != "eofcmp" || !a.Val {
+		for _, g := range fns {
+			for _, b := range g.Blocks {
+				ifi, ok := b.Instrs[len(b.Instrs)-1].(*ssa.If)
+				if !ok {
 					continue
 				}
-				nEdges++
-				// from the first instruction of the successor
-				succ := b.Succs[k]
-				if r, _ := reachFromBlockAvoid(succ, isReturn, isClose); r {
-					bad = true
-					where = p.InstrPos(ifi)
+				for k := 0; k < 2; k++ {
+					a := atomOf(ifi.Cond, k == 0)
+					if a.Kind != "eofcmp" || !a.Val {
+						continue
+					}
+					nEdges++
+					if okc, _ := mustFromBlock(p, b.Succs[k], isClose, false, 2); !okc {
+						bad = true
+						where = p.InstrPos(ifi)
+					}
 				}
 			}
 		}
@@ -876,4 +883,31 @@ func callReaches(ci ssa.CallInstruction, pred func(ssa.CallInstruction) bool) bo
 		}
 	})
 	return found
+}
+
+// leEmits: the value that the call writes to the wire in little-endian form
+// with the given binary.LittleEndian method: the value argument of a direct
+// call, or the argument bound to the parameter that a module helper (e.g. a
+// writeUint32) encodes that way. nil if the call does neither.
+func leEmits(ci ssa.CallInstruction, method string) ssa.Value {
+	if isBinaryLE(ci, method) {
+		return leValueArg(ci)
+	}
+	f := staticCallee(ci)
+	if !inModule(f) {
+		return nil
+	}
+	var out ssa.Value
+	for _, inner := range callsIn(f) {
+		if !isBinaryLE(inner, method) {
+			continue
+		}
+		v := leValueArg(inner)
+		for i, prm := range f.Params {
+			if i < len(ci.Common().Args) && derivesFromValue(v, prm) {
+				out = ci.Common().Args[i]
+			}
+		}
+	}
+	return out
 }
